@@ -98,7 +98,7 @@ def host_of(k):
 
 
 class Run(object):
-    watchdog_s = 2.0
+    watchdog_s = 15.0      # CPU seconds of the executing thread (a run normally takes milliseconds)
     DEFAULTS = dict(c=0, k=0, x=0, ok=False, mode='', cl=False, r=0, st='', why='')
 
     def __init__(self, N, H, M, maxcount=100, script=(), uses=2, fallback=True, timed=None, replay=None,
@@ -512,6 +512,14 @@ class Run(object):
             signal.setitimer(signal.ITIMER_VIRTUAL, 0)
             signal.signal(signal.SIGVTALRM, old)
         self.outcome = kind
+        # what is not needed after the run goes away (thousands of runs are kept until validation)
+        self.pool = self.http = self.net = None
+        self.tasks = {}
+        self.wake = {}
+        self.rel_tasks = {}
+        self.conn_ids = {}
+        self.conn_of = {}
+        self.pending = {}
         if kind != 'hang':
             # main() never returns by itself: anything else than quiescence is a failure of the code under test
             last = self.ev[-1] if self.ev else {'p': [], 'dd': [], 'gl': False}
